@@ -417,6 +417,7 @@ class AioEnv:
             self.quiescent(steps)
             self.run_steps(self.sess.steps())
             self.run_steps(self.sess.finish_steps())
+            self.sess.trace.sealed = True
         finally:
             self.cleanup()
 
